@@ -73,16 +73,16 @@ theorem reshape_get (h w : Nat) (data : List α) (r : Nat) (hr : r < h) :
     (reshape h w data)[r]? = some ((data.drop (r * w)).take w) := by
   simp [reshape, hr]
 
-theorem reshape_row_length (h w : Nat) (data : List α) (hlen : data.length = h * w) :
+theorem reshape_row_length (h w : Nat) (data : List α) (hlen : h * w ≤ data.length) :
     ∀ row ∈ reshape h w data, row.length = w := by
   intro row hrow
   simp only [reshape, List.mem_map, List.mem_range] at hrow
   obtain ⟨r, hr, rfl⟩ := hrow
   have : (r + 1) * w ≤ h * w := Nat.mul_le_mul_right w hr
   rw [Nat.add_mul] at this
-  simp [hlen]; omega
+  simp; omega
 
-theorem rel_root (h w : Nat) (data : List α) (hlen : data.length = h * w) :
+theorem rel_root (h w : Nat) (data : List α) (hlen : h * w ≤ data.length) :
     Rel (Shape.from h w) data (reshape h w data) := by
   have hrow := reshape_row_length h w data hlen
   have hw : (reshape h w data) ≠ [] → mwidth (reshape h w data) = w := by
@@ -487,5 +487,32 @@ theorem ends_chain (ops : List Op) {sh : Shape} (E : Ends sh) :
     · exact hz
     · have := this.nonempty (by omega); omega
   · intro hz; exact this.empty hz
+
+/-! ### a view never has more cells than its parent -/
+theorem size_view (sh : Shape) (rows cols : Sel) :
+    (sh.view rows cols).height * (sh.view rows cols).width ≤ sh.height * sh.width := by
+  cases hc : viewBounds cols sh.width with
+  | none => simp [Shape.view, hc]
+  | some cb =>
+    obtain ⟨cs, ce⟩ := cb
+    cases hr : viewBounds rows sh.height with
+    | none => simp [Shape.view, hc, hr]
+    | some rb =>
+      obtain ⟨rs, re⟩ := rb
+      have ⟨hc1, hc2⟩ := SurfProofs.C08.C08_range cols sh.width cs ce hc
+      have ⟨hr1, hr2⟩ := SurfProofs.C08.C08_range rows sh.height rs re hr
+      simp only [Shape.view, hc, hr]
+      exact Nat.mul_le_mul (by omega) (by omega)
+
+theorem size_chain (ops : List Op) (sh : Shape) :
+    (Shape.chain ops sh).height * (Shape.chain ops sh).width ≤ sh.height * sh.width := by
+  induction ops generalizing sh with
+  | nil => simp [Shape.chain]
+  | cons op ops ih =>
+    simp only [Shape.chain, List.foldl_cons]
+    refine Nat.le_trans (ih _) ?_
+    cases op with
+    | view rows cols => exact size_view sh rows cols
+    | transpose => simp only [Shape.apply, Shape.transpose]; rw [Nat.mul_comm]; exact Nat.le_refl _
 
 end SurfProofs.Lemmas.Shape
